@@ -23,7 +23,14 @@ class NarrowInt:
         self._memo: Dict[int, bool] = {}
         # names that may be bound to an unsigned numpy scalar *type* (constructor variables)
         self.ctor_vars: Set[str] = set()
+        # module-level tables of scalar types (`_NP_TYPES = {torch.uint8: np.uint8, ...}`): a name bound to an entry may be the unsigned one
+        tables = set()
+        for st in getattr(getattr(f, "module", None), "tree", ast.Module(body=[], type_ignores=[])).body:
+            if isinstance(st, ast.Assign) and isinstance(st.value, ast.Dict) and any(_is_np_unsigned_ctor(v) for v in st.value.values):
+                tables |= {t.id for t in st.targets if isinstance(t, ast.Name)}
         for n in own_nodes(f.node):
+            if isinstance(n, ast.Assign) and isinstance(n.value, ast.Subscript) and isinstance(n.value.value, ast.Name) and n.value.value.id in tables:
+                self.ctor_vars |= {t.id for t in n.targets if isinstance(t, ast.Name)}
             if isinstance(n, (ast.For, ast.AsyncFor)) and isinstance(n.iter, (ast.Tuple, ast.List)):
                 tg = n.target
                 for row in n.iter.elts:
